@@ -261,6 +261,62 @@ func dominatedByDotReject(mu *ssa.MapUpdate) bool {
 			return true
 		}
 	}
+	return allKeysCheckedBefore(mu)
+}
+
+// allKeysCheckedBefore: the key written is a key of a map the function ranges over, and an earlier loop over the very same
+// map returns (an error) for any key that contains a dot: `for k := range m { if strings.Contains(k, ".") { return err } }`
+// followed by `for k, v := range m { table[k] = v }`.
+func allKeysCheckedBefore(mu *ssa.MapUpdate) bool {
+	keyOf := func(v ssa.Value) *ssa.Range { // v is the key of a range step
+		ex, ok := v.(*ssa.Extract)
+		if !ok || ex.Index != 1 {
+			return nil
+		}
+		nx, ok := ex.Tuple.(*ssa.Next)
+		if !ok {
+			return nil
+		}
+		rg, _ := nx.Iter.(*ssa.Range)
+		return rg
+	}
+	rg := keyOf(mu.Key)
+	if rg == nil {
+		return false
+	}
+	fn := mu.Parent()
+	for _, b := range fn.Blocks {
+		for _, in := range b.Instrs {
+			c, ok := in.(*ssa.Call)
+			if !ok || len(c.Call.Args) != 2 {
+				continue
+			}
+			if o := calleeObj(c); o == nil || !isFuncNamed(o, "strings", "", "Contains") {
+				continue
+			}
+			dot, ok := c.Call.Args[1].(*ssa.Const)
+			if !ok || dot.Value == nil || dot.Value.ExactString() != "\".\"" {
+				continue
+			}
+			rg2 := keyOf(c.Call.Args[0])
+			if rg2 == nil || rg2 == rg || rg2.X != rg.X || !instrDominates(rg2, rg) {
+				continue
+			}
+			// the true edge of the test returns
+			for _, ref := range *c.Referrers() {
+				iff, ok := ref.(*ssa.If)
+				if !ok {
+					continue
+				}
+				t := iff.Block().Succs[0]
+				if _, isRet := t.Instrs[len(t.Instrs)-1].(*ssa.Return); isRet && len(t.Preds) == 1 {
+					// and the second loop starts only after the first has run to its end (the first loop's exit dominates it): given by
+					// rg2 dominating rg and the only other way out of the first loop being this return
+					return true
+				}
+			}
+		}
+	}
 	return false
 }
 
